@@ -19,6 +19,7 @@ package config
 import (
 	"fmt"
 	"net/url"
+	"slices"
 	"strings"
 
 	"github.com/dadrus/heimdall/internal/x"
@@ -53,16 +54,22 @@ func (r QueryParamsRemover) RemoveFrom(value string) string {
 		return value
 	}
 
-	query, err := url.ParseQuery(value)
-	if err != nil {
-		return value
+	// The query is filtered pair by pair instead of being parsed and re-encoded as a whole. So, a pair, which
+	// cannot be decoded, does not prevent the removal of the configured parameters, and the remaining pairs
+	// are forwarded exactly as received (same order, same encoding).
+	pairs := strings.Split(value, "&")
+	kept := make([]string, 0, len(pairs))
+
+	for _, pair := range pairs {
+		name, _, _ := strings.Cut(pair, "=")
+		if key, err := url.QueryUnescape(name); err == nil && slices.Contains(r, key) {
+			continue
+		}
+
+		kept = append(kept, pair)
 	}
 
-	for _, param := range r {
-		query.Del(param)
-	}
-
-	return query.Encode()
+	return strings.Join(kept, "&")
 }
 
 type URLRewriter struct {
